@@ -24,7 +24,9 @@ MANIFEST = dict(
           "the mirror of Tag.__eq__ decides the structural relation 'same name, same attribute map, pairwise equal children, "
           "strings by text' (eq_iff_structural, eqSpec_tag/str/tag_str, canonL_eq_iff), is reflexive/symmetric/transitive and "
           "blind to identities, position, classes, prefix, settings (eq_refl/symm/trans, ne_iff_not_eq, eq_depends_on_canon_only), "
-          "attribute order is irrelevant (attr_order_irrelevant); a copy equals its original and everything the original equals, "
+          "attribute order is irrelevant (attr_order_irrelevant); equal trees have equally many nodes, so == never identifies a tag "
+          "with one of its descendants and _event_stream's structural parent test pops like the identity test (eq_same_size, "
+          "eq_never_confuses_ancestor_and_descendant); a copy equals its original and everything the original equals, "
           "and hashes like it under every identity-blind renderer (copy_eq, copy_eq_class, copy_hash); witness that == does not "
           "determine hash (hash_is_not_a_function_of_eq); the model's reading of Tag.copy_self / Tag.__init__ / "
           "BeautifulSoup.copy_self is pinned to the live source by generated tables (copy_self_source, "
@@ -996,14 +998,6 @@ def first_diff(a: str, b: str):
     return f"length {len(ta)} vs {len(tb)}"
 
 
-def fresh_soup_head(soup):
-    """data of `type(soup)("", None, soup.builder)`, as a childless T node (identity 0)"""
-    f = type(soup)("", None, soup.builder)
-    reg = Reg()
-    reg.settings = {}
-    return f, reg
-
-
 def check_receiver(ctx, batch, recipe, world, el, path, how, stream, tree_id, ri):
     """copy one element: oracle + model. Returns the copy (or None)."""
     case = {"op": "copy", "recipe": recipe, "path": list(path), "how": how}
@@ -1625,7 +1619,7 @@ def stream_settings(ctx):
 
 def reparse(soup):
     """decode() + parse with an equally configured builder: what a pickle round trip is allowed to be"""
-    return type(soup)(soup.decode(), builder=copy.copy(soup.builder) if False else pickle.loads(pickle.dumps(soup.builder)))
+    return type(soup)(soup.decode(), builder=pickle.loads(pickle.dumps(soup.builder)))
 
 
 def stream_pickle(ctx, n_docs):
@@ -1715,7 +1709,7 @@ def stream_corpus(ctx, batch):
         return
     for f in sorted(d.glob("*.json")):
         v = json.loads(f.read_text())
-        rc = run_case(ctx, batch, v.get("case", v), "corpus")
+        run_case(ctx, batch, v.get("case", v), "corpus")
         ctx.count("corpus:cases")
 
 
